@@ -1,7 +1,7 @@
 SPECIFICATION Spec
 CONSTANTS
   W = 6
-  MaxDepth = 2
+  MaxDepth = 1
   Bound = 256
   Dense = TRUE
 VIEW View
